@@ -191,6 +191,14 @@ def gen_publishers(rng, versions):
     return out
 
 
+def p_deps(ps):
+    """dependencies common to every package of the list (a dependency-criteria entry must name a real dependency)"""
+    if not ps:
+        return []
+    names = set.intersection(*[{d["name"] for d in p["deps"]} for p in ps])
+    return [d for d in ps[0]["deps"] if d["name"] in names]
+
+
 def gen_policy(rng, pkgs, crits, third_names):
     policy = {}
     by_name = {}
@@ -200,8 +208,11 @@ def gen_policy(rng, pkgs, crits, third_names):
         first = [p for p in ps if p["source"] != "registry"]
         if not first:
             # policies on third-party crates are legal (criteria for their deps)
-            if rng.random() < 0.1:
-                ent = {"criteria": crit_list(rng, crits)}
+            if rng.random() < 0.15:
+                ent = {"criteria": crit_list(rng, crits, allow_empty=True)}
+                if p_deps(ps) and rng.random() < 0.5:
+                    ent["dependency-criteria"] = {d["name"]: crit_list(rng, crits, allow_empty=True)
+                                                  for d in rng.sample(p_deps(ps), 1)}
                 if len(ps) > 1:
                     for p in ps:
                         policy[f"{name}:{vstr(p)}"] = dict(ent)
@@ -215,9 +226,9 @@ def gen_policy(rng, pkgs, crits, third_names):
         for p in targets:
             ent = {}
             if rng.random() < 0.45:
-                ent["criteria"] = crit_list(rng, crits)
+                ent["criteria"] = crit_list(rng, crits, allow_empty=True)
             if p["workspace"] and rng.random() < 0.4:
-                ent["dev-criteria"] = crit_list(rng, crits)
+                ent["dev-criteria"] = crit_list(rng, crits, allow_empty=True)
             if rng.random() < 0.4 and p["deps"]:
                 dc = {}
                 for d in rng.sample(p["deps"], min(len(p["deps"]), rng.choice([1, 1, 2]))):
@@ -393,6 +404,48 @@ def boost_exemptions(rng, case):
     return case
 
 
+def boost_dense_success(rng, case):
+    """a store that vets (everything exempted at its exact version) except for one crate, which gets a
+    dense web of delta audits carrying every criterion — diamonds, back edges, several alternative
+    routes — plus exemptions on intermediate versions competing with them"""
+    store = case["store_struct"]
+    pkgs = case["graph"]["packages"]
+    notes = Notes()
+    notes.n = 2500
+    crits = _crits(store)
+    every = ["safe-to-deploy"] + [c for c in crits if c not in BUILTINS]
+    tv = _third_versions(case)
+    single = sorted(n for n, vs in tv.items() if len(vs) == 1 and "@" not in vs[0] and sum(1 for p in pkgs if p["name"] == n) == 1)
+    if not single:
+        return case
+    for n, l in store["audits"].items():
+        store["audits"][n] = [a for a in l if a.get("kind") != "violation"]
+    for f in store["lock"]["audits"].values():
+        for n, l in f.get("audits", {}).items():
+            f["audits"][n] = [a for a in l if a.get("kind") != "violation"]
+    t = rng.choice(single)
+    v = tv[t][0]
+    blanket_exemptions(store, pkgs, crits, notes, t)
+    web = []
+    others = [x for x in VERSIONS if x != v]
+    for _ in range(rng.randint(5, 10)):
+        r = rng.random()
+        if r < 0.35:
+            a, b = rng.choice(others), v
+        else:
+            a, b = rng.sample(VERSIONS, 2)
+        web.append({"kind": "delta", "from": a, "to": b, "criteria": list(every), "notes": notes()})
+    for _ in range(rng.choice([0, 1, 1, 2])):
+        web.append({"kind": "full", "version": rng.choice(others), "criteria": list(every), "notes": notes()})
+    rng.shuffle(web)
+    store["audits"][t] = web
+    store["exemptions"][t] = [{"version": rng.choice(others), "criteria": list(every), "suggest": True, "notes": notes()}
+                              for _ in range(rng.choice([1, 1, 2]))]
+    for tbl in ("wildcard_audits", "trusted"):
+        store[tbl].pop(t, None)
+    return case
+
+
 # ---------------------------------------------------------------------------
 # unlocked cases: peers served over the mock network + a mock crates.io
 
@@ -555,6 +608,52 @@ def blanket_exemptions(store, pkgs, crits, notes, skip):
         l = store["exemptions"].setdefault(p["name"], [])
         if not any(e["version"] == vstr(p) and set(e["criteria"]) >= set(every) for e in l):
             l.append({"version": vstr(p), "criteria": every, "suggest": True, "notes": notes()})
+
+
+def boost_peer_trusted(rng, case):
+    """unlocked cases: a PEER's trusted-publisher entries for crates of the graph, publisher records
+    on crates.io that would match them, and a reason for cargo-vet to fetch those records (an own
+    wildcard audit / trusted entry for another user, or a peer's wildcard audit) — a peer's trusted
+    table must grant nothing"""
+    store = case["store_struct"]
+    peers = case.get("peers_struct") or {}
+    if not peers:
+        return case
+    notes = Notes()
+    notes.n = 3000
+    crits = _crits(store)
+    reg = case["registry"]["packages"]
+    for name, vs in _third_versions(case).items():
+        if rng.random() < 0.4:
+            continue
+        url = rng.choice(sorted(peers))
+        pf = peers[url]
+        pcrits = BUILTINS + sorted(pf.get("criteria", {}))
+        u = rng.randint(1, 3)
+        other = rng.choice([x for x in (1, 2, 3) if x != u])
+        pf.setdefault("trusted", {}).setdefault(name, []).append(
+            {"user-id": u, "start": DATES[0], "end": DATES[7], "criteria": crit_list(rng, pcrits), "notes": notes()})
+        have = {r["version"]: r for r in reg.get(name, [])}
+        for v in vs:
+            if "@" in v:
+                continue
+            r = have.get(v)
+            if r is None:
+                r = {"version": v}
+                reg.setdefault(name, []).append(r)
+            r["by"] = u
+            r["when"] = rng.choice(DATES[1:6])
+        reg[name].sort(key=lambda r: VERSIONS.index(r["version"]) if r["version"] in VERSIONS else 99)
+        ent = {"user-id": other, "start": DATES[0], "end": DATES[7], "criteria": crit_list(rng, crits), "notes": notes()}
+        why = rng.random()
+        if why < 0.4:
+            store["wildcard_audits"].setdefault(name, []).append(ent)
+        elif why < 0.7:
+            store["trusted"].setdefault(name, []).append(ent)
+        else:
+            ent["criteria"] = crit_list(rng, pcrits)
+            pf.setdefault("wildcard_audits", {}).setdefault(name, []).append(ent)
+    return finalize(case)
 
 
 def boost_shared_exemption(rng, pkgs, store, crits, notes):
@@ -898,9 +997,14 @@ def gen_audit_as_case(rng, cid):
         targets = ps if versioned else [ps[0]]
         if versioned and rng.random() < 0.2:
             targets = targets[:-1] or targets       # a missing version
+        mixed = any(q["source"] == "registry" for q in ps) and any(q["source"] != "registry" for q in ps)
+        if mixed and rng.random() < 0.35:
+            # one unversioned entry covering a crates.io package and its path/git sibling
+            policy[n] = {"audit-as-crates-io": rng.random() < 0.7 and False or rng.random() < 0.5}
+            continue
         for p in targets:
             ent = {}
-            if p["source"] != "registry" and rng.random() < 0.7:
+            if (p["source"] != "registry" and rng.random() < 0.7) or (p["source"] == "registry" and rng.random() < 0.12):
                 ent["audit-as-crates-io"] = rng.random() < 0.6
             if rng.random() < 0.3:
                 ent["criteria"] = ["safe-to-run"]
